@@ -238,3 +238,31 @@ VARIANTS += [
     V('C12', 'twin: parse spelled the other way round', RTF, "cvals = [0.0 if len(x) == 0 else float(x) for x in cvals]", "cvals = [float(x) if x else 0.0 for x in cvals]", expect='clean'),
     V('C12', 'twin: fw formula spacing', FWF, "f'np.where(X < {greater_than}, '\n            f'X, '\n            f'np.where(X>{greater_than} ,'", "f'np.where(X<{greater_than}, '\n            f'X, '\n            f'np.where(X > {greater_than},'", expect='clean'),
 ]
+
+# ---------------------------------------------------------------- C08
+VARIANTS += [
+    V('C08', 'batch trigger >', CR, "if len(line_tmp_storage) >= args.minibatch_size:", "if len(line_tmp_storage) > args.minibatch_size:"),
+    V('C08', 'subsampling ==', CR, "if line_counter % args.subsampling != 0:", "if line_counter % args.subsampling == 0:"),
+    V('C08', 'counter incremented after the skip', CR, "        line_counter += 1\n        local_pbar.update(1)\n\n        if line_counter % args.subsampling != 0:\n            continue\n", "        local_pbar.update(1)\n\n        if line_counter % args.subsampling != 0:\n            line_counter += 1\n            continue\n        line_counter += 1\n"),
+    V('C08', 'counter starts at 1', CR, "    line_counter = 0\n", "    line_counter = 1\n"),
+    V('C08', 'header read twice', CR, "    file_stream.readline()\n", "    file_stream.readline()\n    file_stream.readline()\n"),
+    V('C08', 'header not skipped', CR, "    file_stream.readline()\n", ""),
+    V('C08', 'tail threshold >=', CR, "if remaining_batch_size > 2**10:", "if remaining_batch_size >= 2**10:"),
+    V('C08', 'tail threshold 2**9', CR, "if remaining_batch_size > 2**10:", "if remaining_batch_size > 2**9:"),
+    V('C08', 'buffer not reset', CR, "            line_tmp_storage = []\n            step_timing_checkpoints", "            step_timing_checkpoints"),
+    V('C08', 'accumulate after checkpoint', CR, "            importances_df += importances_batch.triplet_scores\n\n            if args.heuristic != 'Constant':\n                local_pbar.set_description('Creating checkpoint')\n                checkpoint_importances_df(importances_df)\n", "            if args.heuristic != 'Constant':\n                local_pbar.set_description('Creating checkpoint')\n                checkpoint_importances_df(importances_df)\n            importances_df += importances_batch.triplet_scores\n"),
+    V('C08', 'checkpoint only every 2nd batch', CR, "            if args.heuristic != 'Constant':\n                local_pbar.set_description('Creating checkpoint')", "            if args.heuristic != 'Constant' and len(step_timing_checkpoints) % 2 == 0:\n                local_pbar.set_description('Creating checkpoint')"),
+    V('C08', 'checkpoint of the batch only', CR, "                checkpoint_importances_df(importances_df)\n\n    file_stream.close()", "                checkpoint_importances_df(importances_batch.triplet_scores)\n\n    file_stream.close()"),
+    V('C08', 'tail not checkpointed', CR, "        bounds_storage_batch.append(bounds_storage)\n        checkpoint_importances_df(importances_df)\n", "        bounds_storage_batch.append(bounds_storage)\n"),
+    V('C08', 'tail not accumulated', CR, "        step_timing_checkpoints.append(importances_batch.step_times)\n        importances_df += importances_batch.triplet_scores\n        bounds_storage = dict()", "        step_timing_checkpoints.append(importances_batch.step_times)\n        bounds_storage = dict()"),
+    V('C08', 'mean instead of median', CR, "grouped = importances_df.groupby(['FeatureA', 'FeatureB'], as_index=False).median()", "grouped = importances_df.groupby(['FeatureA', 'FeatureB'], as_index=False).mean()"),
+    V('C08', 'group by FeatureA only', CR, "grouped = importances_df.groupby(['FeatureA', 'FeatureB'], as_index=False).median()", "grouped = importances_df.groupby(['FeatureA'], as_index=False).median()"),
+    V('C08', 'descending final sort', TRK, "triplets = triplets.sort_values(by=['Score'])", "triplets = triplets.sort_values(by=['Score'], ascending=False)"),
+    V('C08', 'final table not sorted', TRK, "    triplets = triplets.sort_values(by=['Score'])\n", ""),
+    V('C08', 'rows buffer sorted before scoring', CR, "            importances_batch, bounds_storage, coverage_storage, memory_storage = compute_batch_ranking(\n                line_tmp_storage,", "            line_tmp_storage.sort()\n            importances_batch, bounds_storage, coverage_storage, memory_storage = compute_batch_ranking(\n                line_tmp_storage,"),
+    V('C08', 'comment lines skipped', CR, "        if line_counter % args.subsampling != 0:\n            continue\n", "        if line_counter % args.subsampling != 0:\n            continue\n        if line.startswith('#'):\n            continue\n"),
+    V('C08', 'twin: extend instead of +=', CR, "            importances_df += importances_batch.triplet_scores\n\n            if args.heuristic", "            importances_df.extend(importances_batch.triplet_scores)\n\n            if args.heuristic", expect='clean'),
+    V('C08', 'twin: flipped trigger comparison', CR, "if len(line_tmp_storage) >= args.minibatch_size:", "if args.minibatch_size <= len(line_tmp_storage):", expect='clean'),
+    V('C08', 'twin: tail literal 1024', CR, "if remaining_batch_size > 2**10:", "if remaining_batch_size > 1024:", expect='clean'),
+    V('C08', 'twin: explicit ascending', TRK, "triplets = triplets.sort_values(by=['Score'])", "triplets = triplets.sort_values(by='Score', ascending=True)", expect='clean'),
+]
